@@ -10,13 +10,17 @@ THEOREM_FILE = "Props/C07.v"
 HARNESS_ARGS = ["sim"]
 PER_SHARD = 8
 LEVEL_TEXT = ("Coq theorems over a Gallina model of the probing registry (Probe, DnsRegistry::is_probing_done, "
-              "check_probing, handle_expired_probes, tiebreaking, conflict renaming): probe spacing for EVERY sequence of "
-              "wake-up times and every interleaving of registrations, lost tie-breaks and conflicts; the exact timetable "
-              "T, T+250, T+500, active at T+750 on schedules that are never late; records are answerable only after their "
-              "probe finished; constants and comparison directions regenerated from the Rust on every run. The registry "
-              "model is embedded in a model of the responder loop that is compared, iteration by iteration, with the real "
-              "daemon thread in the simulated world, and the statement is executed as a monitor (chk_C07) on the "
-              "implementation's packets, events and requested wake-ups")
+              "check_probing, handle_expired_probes, tiebreaking, conflict renaming) and of the responder loop around it: "
+              "for EVERY history of the daemon model (any interfaces, datagrams, calls, jitter values, any nondecreasing "
+              "iteration times, late or early) the probe queries for a name on an interface are at least 250 ms apart "
+              "(C07_wire_probe_spacing); at registry level, for every interleaving of registrations, probing passes, lost "
+              "tie-breaks and conflicts: spacing, activation only 750 ms after the probe's start and 250 ms after its last "
+              "query, 'probing done' only after activation; on schedules that are never late the exact timetable T, T+250, "
+              "T+500, active at T+750 < registration + 1000; an announcement is built only when all records are active, a "
+              "question is answered only for announced services; constants and comparison directions regenerated from "
+              "the Rust on every run. The model is compared iteration by iteration with the real daemon thread in the "
+              "simulated world, and the statement is executed as a monitor (chk_C07) on the implementation's packets, "
+              "events and requested wake-ups")
 TECHNIQUE = ("machine-checked proof in Coq (invariants of the probe state machine over all operation sequences) + "
              "model/implementation correspondence on simulated-daemon histories")
 LEVELS = "K6 (real ServiceDaemon thread in the simulated world: register / queries / conflicts / unregister histories)"
@@ -42,13 +46,15 @@ TRUSTED = [
     "enumeration (replaced by the hooks), packet splitting above 8972 bytes, the record cache (no browse/resolve calls "
     "in these histories), non-ASCII case mapping",
 ]
-PARTIAL = ("The theorems are about the registry state machine (all operation sequences, all times) and about single steps of "
-           "the daemon model; that chk_C07 accepts every run of the full daemon model is validated on every generated "
-           "history (the monitor is also run on the model's own output), not proved. Exact times are theorems about "
-           "schedules that are never late; lateness of the real poll is an input. Interfaces appearing later and "
-           "addr_auto registrations are not generated. Three findings are listed in known/C07.json: fewer than three "
-           "probes when the daemon is woken late, a record that joins a probe already in flight, no timer for a probe "
-           "created inside the probing handler")
+PARTIAL = ("Proved for all histories of the daemon model: probe spacing on the wire. Proved for all operation sequences of "
+           "the registry machine and for single daemon steps: the other clauses (see Props/C07.v). NOT proved as a theorem "
+           "over histories: that chk_C07 accepts every run of the daemon model (three probes and the wait before every "
+           "response, second announcement, wake-up requests); this is validated on every generated history by running the "
+           "monitor on the model's own output as well. Exact times are theorems about schedules that are never late; the "
+           "granted wake-up time is an input. Interfaces appearing later and addr_auto registrations are not generated. "
+           "Findings (known/C07.json): fewer than three probes when the daemon is woken late; a record that joins a probe "
+           "in flight is proposed fewer than three times; no timer for a probe created inside the probing handler; after a "
+           "lost tie-break a host rename lets the name complete without probing again")
 
 KNOWN = {42: "C07-late-wakeup-fewer-probes", 43: "C07-speaks-under-given-up-name", 44: "C07-record-joins-inflight-probe",
          45: "C07-probe-created-in-handler-no-timer", 46: "C07-host-rename-skips-reprobe"}
